@@ -145,6 +145,16 @@ def structured_strings():
                 emit(b + m1 + m2)
                 emit('x.' + b + m1 + m2 + 'y')
                 emit(b + m1 + m2 + '.e\u0301')          # a sibling label that is not NFC makes the normaliser run on the whole domain
+    # primary composites whose second part is a starter too (two-part vowel signs): alone the pair is "not NFC" for the
+    # quick check only if the pre-check looks at starter + starter pairs
+    for a, b, c in [('\u09c7', '\u09be', '\u09cb'), ('\u09c7', '\u09d7', '\u09cc')]:
+        for pre in ('\u0995', 'x\u0995', '\u0995\u0995'):
+            emit(pre + a + b)
+            emit(pre + c)
+            emit(pre + a + b + '.com')
+            emit(pre + a + '\u0301' + b)               # an intervening mark blocks
+            emit(pre + a + b + '.e\u0301')
+            emit('x.' + pre + a + a + b)
     for wide in ('\uff41', '\uff21'):                   # a folded base letter followed by a composing mark
         for m1 in MARKS:
             emit(wide + m1)
@@ -223,6 +233,10 @@ def w_decomposable_sweep(ops, rng, n):
     for cp in cps:
         c = chr(cp)
         op_q(ops, 'e\u0301.x' + c, '\u00e9.x' + ud.normalize('NFD', c))
+        # ... and with nothing else in the domain that is not NFC (the "already NFC" pre-check decides alone): all the
+        # non-Hangul ones, and the Hangul syllables at the T-index boundaries
+        if not (0xAC00 <= cp <= 0xD7A3) or (cp - 0xAC00) % 28 in (0, 1, 12, 27):
+            op_q(ops, 'x' + c, 'x' + ud.normalize('NFD', c))
 
 
 def op_ke(ops, cps):
@@ -291,6 +305,32 @@ def w_blocks(ops, rng, n):
             elif m:
                 del m[rng.randrange(len(m))]
             op_kd(ops, bytes(m))
+
+
+def case_pairs():
+    """(upper, lower) for every code point above ASCII whose simple lower-case mapping is ONE other code point"""
+    out = []
+    for cp in range(0x80, 0x30000):
+        if 0xD800 <= cp <= 0xDFFF:
+            continue
+        c = chr(cp)
+        lo = c.lower()
+        if len(lo) == 1 and lo != c:
+            out.append((c, lo))
+    return out
+
+
+# code points whose UTS #46 mapping is NOT their simple lower-case form (adjudicated one by one on the unchanged tree)
+CASE_PAIR_EXCEPTIONS = {0x1E9E}          # CAPITAL SHARP S maps to "ss", while U+00DF is a deviation character (kept)
+
+
+def w_case_fold_pairs(ops, rng, n):
+    """C16 (characters the mapping folds): every cased letter above ASCII (BMP and supplementary planes: Deseret,
+    Osage, Adlam, ...) next to its lower-case form, inside a domain that goes through full processing"""
+    for up, lo in case_pairs():
+        if ord(up) in CASE_PAIR_EXCEPTIONS:
+            continue
+        op_q(ops, 'www.%s.\u00e9.example' % up, 'www.%s.\u00e9.example' % lo)
 
 
 def w_structured(ops, rng, n):
